@@ -5,14 +5,15 @@ import vlib
 
 ALLVALS = {"etag", "lm", "both", "none", "weak"}
 BASE = dict(NRes=2, NClients=3, Forms="<- AllForms", FormStorable="<- StorableTab", FormLife="<- LifeTab", ValKinds=ALLVALS,
-            DefaultAge=3, IgnoreCC=False, ForceDefault=False, Retry416=False, MaxVer=3, MaxNow=12, MaxX=8,
+            DefaultAge=3, IgnoreCC=False, ForceDefault=False, Retry416=False, StoreMayRefuse=False, MaxVer=3, MaxNow=12, MaxX=8,
             Kinds={"get", "range", "head"}, Conds={"none", "inm", "ims", "bad"})
 
 
-def fam(name, depth=30, backend="memory", genforms="AllForms", genvals=None, bodylen=256, **over):
+def fam(name, depth=30, backend="memory", genforms="AllForms", genvals=None, bodylen=256, limit=0, shards=0, **over):
     c = dict(BASE)
     c.update(over)
-    return dict(name=name, consts=c, depth=depth, backend=backend, genforms=genforms, genvals=genvals or ALLVALS, bodylen=bodylen)
+    return dict(name=name, consts=c, depth=depth, backend=backend, genforms=genforms, genvals=genvals or ALLVALS, bodylen=bodylen,
+                limit=limit, shards=shards)
 
 
 def policy_families():
@@ -44,6 +45,17 @@ def retry_families():
     return f
 
 
+def refusal_families():
+    """the cache refuses to keep the answer: empty bodies (the file backend keeps no empty files; the memory backend does)"""
+    f = [fam("px_%s_emptybody" % be, backend=be, bodylen=0, depth=26, genforms="SmallForms", NRes=1, NClients=3, Kinds={"get", "head"},
+             Conds={"none", "inm"}, genvals={"etag", "none"}, StoreMayRefuse=(be == "file"), MaxX=10) for be in ("file", "memory")]
+    # no room: a memory cache of one lock shard and a 300-byte limit holds two 256-byte bodies at most (the limit is looked at
+    # before a store); the store that finds it full cannot evict (every candidate shares the storing key's lock) and is refused
+    f.append(fam("px_memory_full", backend="memory", depth=30, genforms="SmallForms", NRes=2, NClients=2, Kinds={"get"}, Conds={"none"},
+                 genvals={"etag"}, StoreMayRefuse=True, MaxX=10, limit=300, shards=1))
+    return f
+
+
 def reval_families():
     f = []
     for be in ("memory", "file"):
@@ -54,7 +66,7 @@ def reval_families():
 
 # trace categories are property ids already
 def all_families():
-    return policy_families() + flight_families() + reval_families() + retry_families()
+    return policy_families() + flight_families() + reval_families() + retry_families() + refusal_families()
 
 
 def run_family(f, num, seed, keep=None):
@@ -68,7 +80,7 @@ def run_family(f, num, seed, keep=None):
 def driver_config(f):
     c = f["consts"]
     return {"backend": f["backend"], "ignoreCC": c["IgnoreCC"], "forceDefault": c["ForceDefault"], "defaultAge": c["DefaultAge"],
-            "bodyLen": f["bodylen"], "retry416": c.get("Retry416", False), "watchdogMs": 1500}
+            "bodyLen": f["bodylen"], "emptyBody": f["bodylen"] == 0, "limitBytes": f.get("limit", 0), "shards": f.get("shards", 0), "retry416": c.get("Retry416", False), "watchdogMs": 1500}
 
 
 def replay_and_validate(f, hists, inp=None):
